@@ -2,6 +2,7 @@
 import json
 import os
 
+import shape_machine
 import vf
 
 
@@ -43,7 +44,10 @@ def run(ctx):
         with open(trace) as fh:
             ctx.sample({"trace_event": json.loads(fh.readline())})
         ctx.validate_all("Trace_Guards", trace, key_of, group_start="__each__", what_of=what_of, max_rejections=40)
+    # histories: the objects as they are NOW, after any sequence of size-changing calls (spec/Shape.tla)
+    shape_rule, shape_events = shape_machine.run(ctx, probes=True)
     ctx.count(ctx.cov["trace_events"], reqs.keys())
     ctx.cov["exhaustive"] = True
     ctx.cov["rule"] = ("every request of the decision table spec/Guards.tla (%d requests over %d entry points, enumerated by TLC, both sides of every guard) "
-                       "executed once per build variant in its own child process" % (len(reqs), len({k[0] for k in reqs})))
+                       "executed once per build variant in its own child process; histories: " % (len(reqs), len({k[0] for k in reqs}))
+                       + shape_rule + " of the machine spec/Shape.tla plus TLC-simulated behaviours of length 12, replayed in the real Matrix/Vector; %d (pre, action, post) and probe events validated by Trace_Shape" % shape_events)
